@@ -253,6 +253,7 @@ def rule3(P, rep):
                    ('is dominated by a range test' if ok else 'with no dominating range test of that count'),
                    extra={'entry': f.name})
             n += 1
+        # (direct subscripts by caller-controlled members are handled below, over everything set_parameter reaches)
         # interprocedural: a fixed-extent configuration array and a caller-controlled count handed to a callee that subscripts the
         # array parameter with a counter bounded only by the count parameter
         for ev, name in f.calls():
@@ -304,6 +305,58 @@ def rule3(P, rep):
                            extra={'entry': f.name})
                     n += 1
                     break
+    # direct subscripts of fixed-extent configuration arrays by an expression that reads a caller-controlled member, in every
+    # encoder function that svt_av1_enc_set_parameter reaches (constructors included): both ends of the range must have been
+    # tested - in the function, or by verify_settings, which runs first and makes set_parameter return.
+    vs = P.fn('verify_settings', 'EbEncHandle.c')
+    tested = {}
+    def constant(x):
+        x = strip(x)
+        return bool(x) and (x[0] == 'l' or (x[0] == 'b' and constant(x[2]) and constant(x[3])) or (x[0] == 'u' and constant(x[2])))
+    for bid in vs.reach():
+        b = vs.blocks[bid]
+        c = b.get('fullcond')
+        if c is None or b.get('tk') != 'IfStmt':
+            continue
+        for y in subexprs(c):
+            if y[0] == 'b' and y[1] in ('<', '<=', '>', '>='):
+                l, r = strip(y[2]), strip(y[3])
+                for side, other, op in ((l, r, y[1]), (r, l, {'<': '>', '<=': '>=', '>': '<', '>=': '<='}[y[1]])):
+                    if side and side[0] == 'm' and side[1].startswith(cfgrec) and constant(other):
+                        tested.setdefault(side[1], set()).add('upper' if op in ('>', '>=') else 'lower')
+    wide = [g for g in P.reachable_from([P.fn('svt_av1_enc_set_parameter')]) if g.lib == 'Encoder' and not g.nocfg]
+    seen_k = set()
+    for g in sorted(wide, key=lambda g: (g.file, g.line)):
+        for ev in g.events(('ix',)):
+            if 'n' not in ev:
+                continue
+            idx = strip(ev['i'])
+            fl = [x for x in fields_in(idx) if x.startswith(cfgrec)] if idx else []
+            base_f = last_field(ev['e'])
+            if not fl or not base_f or not base_f.startswith(cfgrec):
+                continue
+            fld = fl[0]
+            subtracts = any(y[0] == 'b' and y[1] == '-' for y in subexprs(idx))
+            ftype = ''
+            for fd in P.record('EbSvtAv1EncConfiguration')['fields']:
+                if fd['n'] == fld.split('.', 1)[1]:
+                    ftype = fd.get('t', '')
+            signed = not ftype.startswith('u') and ftype not in ('EbBool',)
+            need = {'upper'} | ({'lower'} if (subtracts or signed) else set())
+            have = set(tested.get(fld, ()))
+            if _guarded(g, ev, fld):
+                have |= {'upper', 'lower'}
+            key = '%s/%s[%s]' % (g.name, base_f.split('.', 1)[1], pstr(idx)[:40])
+            if key in seen_k:
+                continue
+            seen_k.add(key)
+            ok = need <= have
+            rep.ob('C14.3-BOUND', key, ok, g.loc(ev),
+                   ('subscript of %s (extent %d) by %s: %s range-tested before (verify_settings / local guard)' % (base_f, ev['n'], pstr(idx)[:40], ' and '.join(sorted(need)) + ' bound')) if ok else
+                   ('subscript of %s (extent %d) by %s: the %s bound of the caller-controlled %s is never tested before set_parameter gets here (verify_settings tests %s only)' %
+                    (base_f, ev['n'], pstr(idx)[:40], ' / '.join(sorted(need - have)), fld.split('.', 1)[1], sorted(have) or 'nothing')),
+                   extra={'entry': 'svt_av1_enc_set_parameter'})
+            n += 1
     return n
 
 
